@@ -185,8 +185,14 @@ func (ig *IntervalGraph) setEdge(e graph.Edge) {
 
 	ig.nodes[fid] = from
 	ig.nodes[tid] = to
-	ig.from[fid] = map[int64]graph.Edge{tid: e}
-	ig.to[tid] = map[int64]graph.Edge{fid: e}
+	if ig.from[fid] == nil {
+		ig.from[fid] = make(map[int64]graph.Edge)
+	}
+	ig.from[fid][tid] = e
+	if ig.to[tid] == nil {
+		ig.to[tid] = make(map[int64]graph.Edge)
+	}
+	ig.to[tid][fid] = e
 }
 
 // Interval I(h) is the maximal, single entry subgraph for which h (head)
